@@ -56,4 +56,15 @@ Section Reindex.
           let '(new, e) := append_trace num old lab res in
           ((cells, upd r new h), e)                                 (* in place: every holder of r sees it *)
     end.
+  (* the value-level view of the array (what Tracer.v calls `traces`): defined for every cell, meaningful when no cell is None *)
+  Definition view (cells : list tcell) (h : theap) : traces num :=
+    map (fun c => match c with Some r => tderef h r | None => empty_trace num end) cells.
+
+  (* what Tracer.trace_t does once the values are gathered and the period is located (its last four lines) *)
+  Definition trace_t_core (names : list nat) (reset : bool) (p : nat) (lab : tlabel) (res : list num) (tr : traces num)
+    : traces num * option exn :=
+    let old := nth p tr (empty_trace num) in
+    let cur := if is_empty num old || reset then mkTrace names [] [] else old in
+    let '(new, e) := append_trace num cur lab res in
+    (upd p new tr, e).
 End Reindex.
